@@ -45,7 +45,22 @@ def run(ctx):
     keys = {json.dumps([{k: e.get(k) for k in ("e", "c", "k", "m")} for e in h]) for h in full}
     def is_prefix_of_other(h):
         return False
-    plain = pmap(do_plain, full, nproc=14)
+    # the same histories with the request spelled differently from run to run ('./F', 'F', './/F', a -F list): the backup and
+    # its md5 belong to the FILE, whatever name a run was given
+    def respell(h, off):
+        sp = ["replace_dot", "replace", "replace_dd", "replace_F"]
+        out, k = [], 0
+        for e in h:
+            if e["e"] == "Run" and e["m"] == "replace":
+                out.append(dict(e, rm=sp[(k + off) % 4]))
+                k += 1
+            else:
+                out.append(e)
+        return out
+    maxi = [h for h in full if len(h) == maxlen]
+    spelled = [respell(h, 0) for h in maxi] + [respell(h, 2) for h in (maxi if not quick else maxi[::3])]
+    ctx.cov["histories_respelled"] = len(spelled)
+    plain = pmap(do_plain, full + spelled, nproc=14)
 
     # (2) kill at every file-related syscall of one run, followed by the rest of the history
     cand = [h for h in full if sum(1 for e in h if e["e"] == "Run") >= 2 and len(h) == maxlen]
